@@ -14,33 +14,49 @@ def _pair(a, b):
     return "(%s, %s)" % (a, b)
 
 
+# categories of queries (harness names) -> the model's codes (Fault/FaultMgr.v)
+CATS = {"synced_to": 1, "birthday": 2, "scopes": 3, "account_name": 4, "next_index": 5, "address_lookup": 6,
+        "passphrase": 7, "watch_only": 8, "locked": 9, "key_material": 10}
+# what waddrmgr.Create stores for the harness's birthday (harness/cmd/c10/abstract.go)
+BIRTHDAY_BASE = 1600000000 - 48 * 3600
+
+
 class C10(Check):
     ID = "C10"
     LEVEL = "proof"
     RULE = ("state = a generated history replayed on a fresh bbolt file (transaction store: node-simulator histories with "
-            "reorgs, conflicts, coinbases, abandons, leases; address manager: histories of NewAccount/Rename/Next/Extend/"
-            "MarkUsed/Import*/SetSyncedTo/SetBirthdayBlock/SetBirthday/ChangePassphrase/NewScopedKeyManager). At the state every "
-            "kind of mutating operation (plus refused ones, plus for the manager every early-memory call followed by a second "
-            "call in the same database transaction) is run on its own copy of the file: clean run (write count n, result, "
-            "observables), then for EVERY k in 1..n with the k-th mutating walletdb call failing: error reported? bucket tree "
-            "after rollback = before? every query answers as before? retry = clean run? n and the error pattern are compared "
-            "with the transcribed Coq program run on the model state. non-trivial = a state with at least one operation of "
-            ">= 1 write; distinct by input")
-    N_QUICK = 32
+            "reorgs, conflicts, coinbases, abandons, leases, labels; address manager: histories of NewAccount/"
+            "NewAccountWatchingOnly/Rename/Next/Extend/MarkUsed/the five imports/SetSyncedTo/SetBirthdayBlock/SetBirthday/"
+            "ChangePassphrase/NewScopedKeyManager; one state in four probed with the manager LOCKED; plus the empty file for "
+            "wtxmgr.Create / waddrmgr.Create). At the state every kind of mutating operation (plus refused ones, plus for the "
+            "manager every call with a memory effect followed by a second call in the same database transaction) is run on its "
+            "own copy of the file: clean run (write count n, result, observables, abstract dump of the file), then for EVERY k "
+            "in 1..n with the k-th mutating walletdb call failing: error reported? bucket tree after rollback = before? every "
+            "query answers as before? retry = clean run? Compared with the transcribed Coq program run under the REGENERATED "
+            "error-disposition table on the model state: the state's dump, the rows the clean run changes, the error pattern "
+            "position by position, the categories of queries that differ after a rollback against the model's memory. "
+            "non-trivial = a state with at least one operation of >= 1 write; distinct by input")
+    N_QUICK = 30
     N_THOROUGH = 240
     ASSUMPTIONS = [
         "all-or-nothing of walletdb.Update itself (rollback discards the working copy) is property C11; the model's update does exactly that",
         "the fault model is one failing mutating walletdb call per database transaction; commit failures are C08/C11",
-        "memory clause: proved for operations whose memory effect follows the disk part (memory-after-disk ordering); operations "
-        "that update memory early are the known eager-memory findings and are exhibited, not proved",
+        "error propagation is not assumed: the disposition of every call site is read from Generated/ErrFlow.v (regenerated), and "
+        "the theorems are discharged per operation by computation on that table",
+        "memory clause: theorem for every operation of the address manager run in its own transaction except SetBirthday (shape "
+        "regenerated from the source); effects applied right after the operation's own writes survive the rollback caused by a "
+        "LATER call of the same transaction: modelled (run_steps), exhibited, listed as known findings",
+        "ciphertexts in the file (key parameters, crypto keys, encrypted account keys) are compared by presence only",
     ]
     PARTIAL_CLAUSES = [
-        "in-memory managers answer as before after rollback: theorem for memory-after-disk operations only; for the real managers "
-        "this clause is checked by the fault sweep (known eager-memory findings are reported as KNOWN-FINDING)",
+        "in-memory managers answer as before after rollback: holds (theorem + sweep) for a failing call in its own transaction "
+        "or first in its transaction, except SetBirthday; does NOT hold when an earlier call of the same transaction had a memory "
+        "effect (known findings, reported as KNOWN-FINDING with the call position and the category of queries)",
     ]
     EXTRA_TRUSTED = [
-        "harness/cmd/extract-c10 (go/ast + go/types with stand-in imports): the table of error dispositions in Generated/ErrFlow.v",
+        "harness/cmd/extract-c10 (go/ast + go/types with stand-in imports): the table of error dispositions and of memory shapes in Generated/ErrFlow.v",
         "harness/internal/faultdb: counting / failing wrapper around the bdb backend",
+        "harness/cmd/c10/abstract.go: decoder of the wtxmgr / waddrmgr bucket layout into the model's abstract rows",
     ]
 
     # ------------------------------------------------------------ running
@@ -49,38 +65,107 @@ class C10(Check):
         return super().run(tier, seed, replay)
 
     OWN = ["Generated/ErrFlow.v", "Fault/Fault.v", "Fault/FaultProofs.v", "Fault/FaultTx.v", "Fault/FaultMgr.v",
-           "Fault/FaultCorr.v", "Properties/C10.v"]
+           "Fault/FaultSites.v", "Fault/FaultCorr.v", "Properties/C10.v"]
 
     def prebuild(self):
-        """Until the files are listed in _CoqProject (and whenever the table in
-        Generated/ErrFlow.v was regenerated from another tree) make sure the
-        .vo files of this property are newer than their sources.  The table is
-        regenerated and compiled under one hold of the build lock."""
-        ok, _ = ensure_coq()
-        if not ok:
-            return
+        """Files of this property that are not (yet) listed in _CoqProject are
+        not built by `make`: compile them here, in dependency order, whenever
+        they are older than their source or than an earlier file of the
+        property (make may just have rebuilt that one).  A failing first `make`
+        (Properties/C10.v needs these files) is expected then: the check's own
+        `make` afterwards builds it."""
+        ensure_coq()
         proj = open(os.path.join(COQ, "_CoqProject")).read()
+        missing = [f for f in self.OWN[:-1] if f not in proj]
+        if not missing:
+            return
         with Lock("coq"):
-            ok, _ = regenerate()
-            if not ok:
-                return
-            stale = False
+            newest = 0.0
             for f in self.OWN[:-1]:
-                if f in proj:
-                    continue
                 v = os.path.join(COQ, f)
                 vo = v + "o"
-                if stale or not os.path.exists(vo) or os.path.getmtime(vo) < os.path.getmtime(v):
-                    stale = True
-                    sh(["timeout", "900", "coqc", "-R", ".", "Verif", f], cwd=COQ, timeout=1000)
+                if f in missing:
+                    if (not os.path.exists(vo)) or os.path.getmtime(vo) < max(newest, os.path.getmtime(v)):
+                        sh(["timeout", "900", "coqc", "-R", ".", "Verif", f], cwd=COQ, timeout=1000)
+                if os.path.exists(vo):
+                    newest = max(newest, os.path.getmtime(vo))
 
     def evaluate_model(self, cases):
+        """model evaluation, then the model's own search: every (state,
+        operation, fault position) at which the model UNDER THE REGENERATED
+        TABLE answers success inside the writes is replayed on the
+        implementation; a confirmed one is added to the cases (its oracle kind
+        gives the VIOLATION line with that replay), an unconfirmed one is a
+        model/implementation mismatch."""
+        self.diag = {}
         try:
-            return super().evaluate_model(cases)
+            mism, logs, problems = [], "", []
+            pred = []
+            for start in range(0, len(cases), self.SHARD):
+                chunk = cases[start:start + self.SHARD]
+                rc, out, err = coq_eval(self.ID, self.render_cases(chunk), "cases_%d" % start)
+                logs += out[-3000:] + err[-2000:]
+                if rc != 0:
+                    problems.append("correspondence: cases file does not evaluate: " + err[-1500:])
+                    continue
+                bad = parse_nat_list(parse_printed(out, "bad"))
+                if bad is None:
+                    problems.append("correspondence: could not parse model output: " + out[-500:])
+                    continue
+                mism.extend(start + b for b in bad)
+                for m in re.finditer(r"\((\d+)(?:%nat)?,\s*(\d+)(?:%nat)?,\s*(\d+)(?:%nat)?\)", parse_printed(out, "pred") or ""):
+                    pred.append((start + int(m.group(1)), int(m.group(2)), int(m.group(3))))
+                self.diag["count_diffs"] = self.diag.get("count_diffs", 0) + len(re.findall(
+                    r"\(\d+(?:%nat)?,\s*\(\d+", parse_printed(out, "cdiffs") or ""))
+                for name in ("kinds_bad", "shapes_bad", "absent_sites"):
+                    self.diag.setdefault(name, [])
+                    self.diag[name] = re.findall(r'"((?:[^"]|"")*)"', parse_printed(out, name) or "")
+            if self.diag.get("kinds_bad"):
+                problems.append("error-disposition table of this tree: the proof obligations of exactly these operations fail "
+                                "(some call site they use does not propagate the error): " + ", ".join(self.diag["kinds_bad"]))
+            if self.diag.get("shapes_bad"):
+                problems.append("memory shapes of this tree: the source no longer applies the memory effect of these "
+                                "operations when the model says (first assignment after the last write): "
+                                + ", ".join(self.diag["shapes_bad"]))
+            self.diag["model_predicted"] = len(pred)
+            self.diag["model_predicted_confirmed"] = 0
+            done = set()
+            for ci, pi, k in pred:
+                if (ci, pi) in done or len(done) >= 6:
+                    continue
+                done.add((ci, pi))
+                conf = self.replay_predicted(cases[ci], pi, k)
+                if conf is not None:
+                    self.diag["model_predicted_confirmed"] += 1
+                    cases.append(conf)
+                else:
+                    problems.append("the model run under the regenerated table reports success with failing write %d of "
+                                    "probe %d of case %d; the implementation does not" % (k, pi, ci))
+            return mism, logs, problems
         except (ValueError, KeyError) as ex:
             # e.g. the shared history generator learnt an event this check's
             # model does not transcribe yet
             return [], "", ["correspondence: cannot render the cases for the model: %r" % (ex,)]
+
+    def replay_predicted(self, case, pi, k):
+        probes = [p for p in case["obs"]["probes"] if not p.get("skip")]
+        if pi >= len(probes):
+            return None
+        key = "txops" if case["in"]["kind"] == "tx" else "mgrops"
+        trial = copy.deepcopy(case["in"])
+        trial[key] = [case["in"][key][probes[pi]["idx"]]]
+        trial["ks"] = [k]
+        p = os.path.join(WORK, "predicted_C10.jsonl")
+        with open(p, "w") as f:
+            f.write(json.dumps({"in": trial}) + "\n")
+        try:
+            rc, cs, _ = run_vh([self.vh_cmd(), "-replay", p], timeout=300)
+        except Exception:
+            return None
+        if rc == 0 and cs and any(o.startswith("success_with_failed_write@") for o in cs[0].get("oracle", [])):
+            cs[0].setdefault("tags", []).append("model_predicted_failing_input")
+            return cs[0]
+        return None
 
     def gen_args(self, tier, seed):
         n = self.N_QUICK if tier == "quick" else self.N_THOROUGH
@@ -105,10 +190,10 @@ class C10(Check):
         return out
 
     def explained_by_known(self, case):
-        """The correspondence of this check compares write counts and the
-        error-for-every-k pattern; none of the known findings (memory answers,
-        retries) can change either, so a model/implementation mismatch is
-        never explained by them."""
+        """The model follows the code where the known findings apply (its
+        memory predicts exactly the categories that leak when a later call of
+        the transaction fails), so a model/implementation mismatch is never
+        explained by a known finding."""
         return False
 
     def nontrivial(self, c):
@@ -179,10 +264,23 @@ class C10(Check):
 
     # ------------------------------------------------------------ model side
     @staticmethod
-    def _observed(p):
-        return "{| o_writes := %s; o_clean_ok := %s; o_faults := %s |}" % (
-            _nat(p["n"]), cbool(p["clean"] == "ok"),
-            clist([_pair(_nat(k["k"]), cbool(k["err"])) for k in p["ks"]]))
+    def _row(r):
+        return "(%s, %s, %s)" % (_z(r["b"]), clist([_z(x) for x in r["k"]]), clist([_z(x) for x in r["v"]]))
+
+    @classmethod
+    def _observed(cls, p):
+        d = p.get("delta") or {}
+        faults = []
+        for k in p["ks"]:
+            cats = sorted({CATS.get(c, 99) for c in (k.get("cats") or [])})
+            faults.append("{| fo_k := %s; fo_err := %s; fo_call := %s; fo_cats := %s |}" % (
+                _nat(k["k"]), cbool(k["err"]), _nat(k.get("call", 0)), clist([_z(c) for c in cats])))
+        return ("{| o_writes := %s; o_clean_ok := %s;\n     o_faults := %s;\n     o_put := %s; o_del := %s; "
+                "o_new_buckets := %s; o_gone_buckets := %s |}" % (
+                    _nat(p["n"]), cbool(p["clean"] == "ok"), clist(faults),
+                    clist([cls._row(r) for r in (d.get("put") or [])]),
+                    clist([_pair(_z(r["b"]), clist([_z(x) for x in r["k"]])) for r in (d.get("del") or [])]),
+                    clist([_z(b) for b in (d.get("newb") or [])]), clist([_z(b) for b in (d.get("goneb") or [])])))
 
     @staticmethod
     def _tx_event(e):
@@ -207,6 +305,10 @@ class C10(Check):
             return "EvSweep"
         if k == "tick":
             return "EvTick %s" % _z(g("dt"))
+        if k == "label":
+            return "EvLabel %s %s" % (_z(g("t")), _z(g("id")))
+        if k == "create":
+            return "EvCreate"
         raise ValueError("unknown event %r" % k)
 
     @staticmethod
@@ -216,8 +318,10 @@ class C10(Check):
             _z(t["id"]), clist([_pair(_z(a), _z(b)) for a, b in ins]), clist([_z(a) for a in t["outs"]]),
             clist([_pair(_z(i), cbool(c != 0)) for i, c in (t.get("creds") or [])]), cbool(t.get("coinbase", False)))
 
-    @staticmethod
-    def _mop(o):
+    IMP_KIND = {"impkey": 0, "impscript": 1, "imppub": 2, "impwit": 3, "imptap": 4}
+
+    @classmethod
+    def _mop(cls, o):
         k = o["k"]
         g = lambda f: o.get(f, 0)
         sc = _z(g("sc"))
@@ -225,6 +329,10 @@ class C10(Check):
             return "MNewScope %s" % sc
         if k == "newacct":
             return "MNewAccount %s %s" % (sc, _z(g("name")))
+        if k == "newacctwo":
+            return "MNewAccountWO %s %s" % (sc, _z(g("name")))
+        if k == "newrawacctwo":
+            return "MNewRawAccountWO %s %s" % (sc, _z(g("acct")))
         if k == "rename":
             return "MRename %s %s %s" % (sc, _z(g("acct")), _z(g("name")))
         if k == "next":
@@ -235,45 +343,71 @@ class C10(Check):
             imp = g("imp")
             path = [g("sc"), g("acct"), g("br"), g("idx")] if imp == 0 else [g("sc"), -1, imp - 1, g("idx")]
             return "MMarkUsed %s" % clist([_z(x) for x in path])
-        if k in ("impkey", "impscript"):
-            return "MImport %s %s %s %s" % (sc, "0" if k == "impkey" else "1", _z(g("idx")), _z(g("h")))
+        if k in cls.IMP_KIND:
+            sec = bool(o.get("sec")) if k in ("impwit", "imptap") else True
+            return "MImport %s %s %s %s %s" % (sc, cls.IMP_KIND[k], _z(g("idx")), _z(g("h")), cbool(sec))
         if k == "setsynced":
             return "MSetSyncedTo %s %s" % (_z(g("h")), _z(g("hash")))
         if k == "setbdayblock":
             return "MSetBirthdayBlock %s %s %s" % (_z(g("h")), _z(g("hash")), cbool(bool(o.get("ver"))))
         if k == "setbirthday":
-            return "MSetBirthday %s" % _z(g("t"))
+            return "MSetBirthday %s" % _z(g("t") - BIRTHDAY_BASE)
         if k == "chpass":
             return "MChangePassphrase %s %s %s" % (cbool(bool(o.get("priv"))), _z(g("old")), _z(g("new")))
+        if k == "convertwo":
+            return "MConvertWO"
+        if k == "create":
+            return "MCreate %s" % cbool(bool(o.get("wo")))
         raise ValueError("unknown manager op %r" % k)
 
     def render_cases(self, cases):
         rows = []
         for c in cases:
             i = c["in"]
+            st = c["obs"].get("state") or {}
+            state = clist(["\n   " + self._row(r) for r in (st.get("rows") or [])])
+            buckets = clist([_z(b) for b in (st.get("buckets") or [])])
             probes = [p for p in c["obs"]["probes"] if not p.get("skip")]
             if i["kind"] == "tx":
                 ops = i.get("txops") or []
-                rows.append("TxCase {| tc_universe := %s;\n  tc_prefix := %s;\n  tc_probes := %s |}" % (
-                    clist([self._txd(t) for t in i["universe"]]),
-                    clist([self._tx_event(e) for e in (i.get("events") or [])]),
-                    clist(["\n   " + _pair(self._tx_event(ops[p["idx"]]), self._observed(p)) for p in probes])))
+                rows.append("TxCase {| tc_universe := %s;\n  tc_fresh := %s;\n  tc_prefix := %s;\n  tc_state := %s;\n"
+                            "  tc_buckets := %s;\n  tc_probes := %s |}" % (
+                                clist([self._txd(t) for t in (i.get("universe") or [])]), cbool(bool(i.get("fresh"))),
+                                clist([self._tx_event(e) for e in (i.get("events") or [])]), state, buckets,
+                                clist(["\n   " + _pair(self._tx_event(ops[p["idx"]]), self._observed(p)) for p in probes])))
             else:
                 ops = i.get("mgrops") or []
-                rows.append("MgrCase {| mc_prefix := %s;\n  mc_probes := %s |}" % (
-                    clist([clist([self._mop(o) for o in tx]) for tx in (i.get("mgrtxs") or [])]),
-                    clist(["\n   " + _pair(clist([self._mop(o) for o in ops[p["idx"]]]), self._observed(p)) for p in probes])))
+                rows.append("MgrCase {| mc_fresh := %s; mc_locked := %s;\n  mc_prefix := %s;\n  mc_state := %s;\n"
+                            "  mc_buckets := %s;\n  mc_probes := %s |}" % (
+                                cbool(bool(i.get("fresh"))), cbool(bool(i.get("locked"))),
+                                clist([clist([self._mop(o) for o in tx]) for tx in (i.get("mgrtxs") or [])]), state, buckets,
+                                clist(["\n   " + _pair(clist([self._mop(o) for o in ops[p["idx"]]]), self._observed(p))
+                                       for p in probes])))
         return """From stdpp Require Import gmap.
-From Coq Require Import ZArith List Bool.
+From Coq Require Import ZArith List Bool String.
 From Verif Require Import Fault.Fault Fault.FaultTx Fault.FaultMgr Fault.FaultCorr.
+From Verif Require Generated.ErrFlow.
 Import ListNotations.
 Local Open Scope Z_scope.
+(* the error-disposition table of this tree *)
+Definition T : table := table_of ErrFlow.site_rows.
 Definition cases : list case :=
 %s.
-Definition bad := Eval vm_compute in mismatches cases.
+Definition bad := Eval vm_compute in mismatches T cases.
 Print bad.
+Definition pred := Eval vm_compute in predicted T cases.
+Print pred.
+Definition kinds_bad := Eval vm_compute in kinds_failing T.
+Print kinds_bad.
+Definition shapes_bad := Eval vm_compute in shapes_failing ErrFlow.mem_shapes.
+Print shapes_bad.
+Definition absent_sites := Eval vm_compute in sites_not_in_table ErrFlow.site_rows.
+Print absent_sites.
+Definition cdiffs := Eval vm_compute in count_diffs T cases.
+Print cdiffs.
 Definition diag := Eval vm_compute in
-  map (fun i => (i, match nth_error cases i with Some c => case_counts c | None => [] end)) bad.
+  map (fun i => (i, match nth_error cases i with Some c => (case_diag T c, case_state_diff T c) | None => ((true, []), ([], [])) end))
+      (firstn 2 bad).
 Print diag.
 """ % clist(["\n " + r for r in rows])
 
@@ -297,6 +431,13 @@ Print diag.
                    write_count_distribution={str(k): v for k, v in sorted(wr.items())},
                    max_write_count=max(wr) if wr else 0)
         cov.update(self.static_leg())
+        d = getattr(self, "diag", {}) or {}
+        cov["operations_whose_site_obligation_fails"] = d.get("kinds_bad", [])
+        cov["operations_whose_memory_shape_differs_from_source"] = d.get("shapes_bad", [])
+        cov["model_sites_absent_from_table"] = d.get("absent_sites", [])
+        cov["model_predicted_failing_inputs"] = d.get("model_predicted", 0)
+        cov["model_predicted_failing_inputs_confirmed_by_replay"] = d.get("model_predicted_confirmed", 0)
+        cov["probes_whose_write_count_differs_from_the_model_accepted"] = d.get("count_diffs", 0)
         return cov
 
     def static_leg(self):
@@ -311,10 +452,10 @@ Print diag.
         disp = collections.Counter(s["disp"] for s in sites)
         out["errflow_sites"] = len(sites)
         out["errflow_dispositions"] = dict(disp)
-        out["errflow_dropped"] = ["%s:%d %s -> %s (%s)" % (s["file"], s["line"], s["func"], s["callee"], s["detail"])
-                                  for s in sites if s["disp"] == "dropped"]
-        out["errflow_unknown"] = ["%s:%d %s -> %s (%s)" % (s["file"], s["line"], s["func"], s["callee"], s["detail"])
-                                  for s in sites if s["disp"] in ("unknown", "deferred")]
+        out["errflow_not_propagated"] = ["%s:%d %s -> %s: %s (%s)" % (s["file"], s["line"], s["func"], s["callee"], s["disp"], s["detail"])
+                                         for s in sites if s.get("code", 0) != 0]
+        out["errflow_memory_shapes"] = {r["func"]: r["shape"] for r in res.get("shapes", []) if r["shape"] != "none"}
+        out["errflow_read_side_cache_fills_not_counted"] = res.get("read_caches", [])
         out["errflow_allow_listed"] = ["%s:%d %s -> %s: %s" % (s["file"], s["line"], s["func"], s["callee"], s["allowed"])
                                        for s in sites if s.get("allowed")]
         out["errflow_sentinel_exemptions"] = ["%s:%d %s: %s" % (s["file"], s["line"], s["func"], s["detail"])
@@ -344,9 +485,9 @@ Print diag.
                 found.add((m.group(1), int(m.group(2))))
         table = {(s["file"], s["line"]): s for s in sites}
         in_table = sorted("%s:%d" % k for k in found if k in table)
-        disagree = sorted("%s:%d" % k for k in found if k in table and table[k]["disp"] != "dropped")
+        disagree = sorted("%s:%d" % k for k in found if k in table and table[k].get("code", 0) == 0)
         missed = sorted("%s:%d" % (s["file"], s["line"]) for s in sites
-                        if s["disp"] == "dropped" and ("statement" in s["detail"] or "to _" in s["detail"])
+                        if s["disp"] == "dropped_continue" and ("statement" in s["detail"] or "to _" in s["detail"])
                         and (s["file"], s["line"]) not in found)
         return dict(ran=True, rc=rc, findings_in_non_test_files=len(found), findings_on_fallible_sites=in_table,
                     disagreements=disagree + missed, agrees=not (disagree or missed),
